@@ -3,7 +3,8 @@
    [tree_okb]: counts >= 0 and inner nodes carry no waveform. *)
 From Coq Require Import ZArith QArith Bool List.
 Require Import QV.C06.Model QV.C06.Spec QV.C06.Proofs_props QV.C06.Gen_sfg QV.C06.Proofs_sfg
-  QV.C06.Model_vol QV.C06.Proofs_vol QV.C06.Proofs_vol_term QV.C06.Proofs_vol_mc QV.C06.Model_idx QV.C06.Proofs_idx.
+  QV.C06.Model_vol QV.C06.Proofs_vol QV.C06.Proofs_vol_term QV.C06.Proofs_vol_mc QV.C06.Model_idx QV.C06.Proofs_idx
+  QV.C06.Proofs_r5 QV.C06.Proofs_r5_mc QV.C06.Proofs_r5_vol.
 (* [erase] unqualified is Model_idx.erase (forget the recorded index); Model_vol.erase forgets which counts are volatile *)
 Import ListNotations.
 Open Scope Z_scope.
@@ -364,3 +365,46 @@ Theorem C06_vol_roll_preserves_all : forall val mq q sr t t', multiplicative val
   same_play (pieces (instv val t')) (pieces (instv val t)) /\ (duration (instv val t') == duration (instv val t))%Q.
 Proof. exact vroll_preserves_all. Qed.
 Print Assumptions C06_vol_roll_preserves_all.
+
+(* ------------------------------------------------------------------------------------------------------------------ *)
+(* Round 5 (audit): the clause "terminates ... or the rewrite fails with an error" as totality statements.  On a valid
+   program flatten_and_balance ALWAYS returns (the [Err EAssert] alternative of [C06_flatten_total] is never taken);
+   to_waveform and roll_constant_waveforms always return; make_compatible returns unless the program's own length is
+   incompatible, and then the error is the ValueError.  [root_incompatible] (Proofs_r5_mc.v) is a plain predicate on the
+   program's duration: duration * sample_rate not whole, or < min_len, or not a multiple of the quantum. *)
+
+Theorem C06_flatten_total_ok : forall d t, tree_okb t = true ->
+  exists n, forall k, exists t', flatten_and_balance (n + k) d t = Ok t'.
+Proof. exact flatten_total_ok. Qed.
+Print Assumptions C06_flatten_total_ok.
+
+Theorem C06_vol_flatten_total_ok : forall d t, tree_okb (Model_vol.erase t) = true ->
+  exists n, forall k, exists t', vflatten_and_balance (n + k) d t = Ok t'.
+Proof. exact vflatten_total_ok. Qed.
+Print Assumptions C06_vol_flatten_total_ok.
+
+Theorem C06_to_waveform_total : forall t, tree_ok1b t = true -> exists x, to_waveform t = Ok x.
+Proof. exact to_waveform_total. Qed.
+Print Assumptions C06_to_waveform_total.
+
+Theorem C06_make_compatible_total : forall ml q sr t, tree_ok1b t = true -> 0 < q ->
+  (exists t', make_compatible ml q sr t = Ok t' /\ root_incompatible ml q sr t = false) \/
+  (make_compatible ml q sr t = Err EValue /\ root_incompatible ml q sr t = true).
+Proof. exact make_compatible_total. Qed.
+Print Assumptions C06_make_compatible_total.
+
+Theorem C06_roll_total : forall mq q sr t, tree_ok1b t = true -> 0 < q -> 1 <= mq ->
+  exists t', roll_constant_waveforms mq q sr t = Ok t'.
+Proof. exact roll_total. Qed.
+Print Assumptions C06_roll_total.
+
+Theorem C06_vol_make_compatible_total : forall rp ml q sr t, tree_ok1b (Model_vol.erase t) = true -> 0 < q ->
+  (exists t' w, vmake_compatible_w rp ml q sr t = Ok (t', w) /\ root_incompatible ml q sr (Model_vol.erase t) = false) \/
+  (vmake_compatible_w rp ml q sr t = Err EValue /\ root_incompatible ml q sr (Model_vol.erase t) = true).
+Proof. exact vmake_compatible_total. Qed.
+Print Assumptions C06_vol_make_compatible_total.
+
+Theorem C06_vol_roll_total : forall mq q sr t, tree_ok1b (Model_vol.erase t) = true -> 0 < q -> 1 <= mq ->
+  exists t', vroll_constant_waveforms mq q sr t = Ok t'.
+Proof. exact vroll_total. Qed.
+Print Assumptions C06_vol_roll_total.
